@@ -1,5 +1,5 @@
 import Nstd.Life.LemmasOps
-import Nstd.Life.LemmasArrTr3
+import Nstd.Life.LemmasArrTr4
 /-
   C04, tie by translation: the member functions of Array.hpp, TRANSLATED from the current header by tools/gen_life.py
   (lean/Nstd/Generated/LifeArray.lean: `LifeArray.append`, `LifeArray.reserve`, ... - functions over the pointer machine
@@ -15,7 +15,7 @@ import Nstd.Life.LemmasArrTr3
   Covered here: reserve(n), append(const Array&) with the other array and with the array itself, append(const T&) with a caller's object and with a reference to an element of the array itself
   (followed into the new storage), resize(n, value) shrinking and growing (caller's object), clear(), ~Array(), Array(),
   Array(capacity), swap (also with itself), remove(index) in and out of range, remove(Iterator), removeFront(), removeBack().
-  See the OPEN block at the end for the functions that are translated but whose equality with the model is not proved yet.
+  Since the third leg of round 7 also: Array(const Array&), operator= (other and self), append(const T*, n) with a range of the array itself, resize(n, a[i]) growing.
 -/
 namespace Nstd.Life
 open Nstd.Life.AP
@@ -122,6 +122,54 @@ theorem translated_append_array_self (p : Per) (ops : List Op) (v fuel : Nat) (h
       LifeArray.appendArr fuel (rep (run (init p) ops)) v v = some (rep st', ()) :=
   ArrTr.tr_appendArr_self (ArrTr.aok_reach p ops v hv) fuel hf
 
+/-- C04 `translated_assign`: `a = b` (clear, reserve(b.capacity()), one copy construction per element of b) and `a = a` (nothing). -/
+theorem translated_assign (p : Per) (ops : List Op) (v w fuel : Nat) (hv : v ≤ 1) (hw : w ≤ 1) (hne : w ≠ v)
+    (hf : ((run (init p) ops).arrs v).size + ((run (init p) ops).arrs w).size < fuel) :
+    (∃ st', stepRes (run (init p) ops) (.assign ⟨.A, v⟩ w) = .ok st' ∧
+      LifeArray.assign fuel (rep (run (init p) ops)) v w = some (rep st', ())) ∧
+    LifeArray.assign fuel (rep (run (init p) ops)) v v = some (rep (step (run (init p) ops) (.assign ⟨.A, v⟩ v)), ()) := by
+  refine ⟨ArrTr.tr_assign (ArrTr.aok_reach p ops v hv) (ArrTr.aok_reach p ops w hw) hne fuel hf, ?_⟩
+  have : step (run (init p) ops) (.assign ⟨.A, v⟩ v) = run (init p) ops := by
+    simp [step, stepRes, compile, guard', hv, Kind.isPool, execAll]
+  rw [this]
+  simp [LifeArray.assign]
+
+/-- C04 `translated_copy_constructor`: `Array a(b)` as the harness executes it for `copy`: the destructor of the old object
+    (`translated_destructor`), then the copy constructor on the destroyed variable = the remaining micro steps of the model operation. -/
+theorem translated_copy_constructor (p : Per) (ops : List Op) (v w fuel : Nat) (hv : v ≤ 1) (hw : w ≤ 1) (hne : w ≠ v) (st0 : State)
+    (h0 : exec (run (init p) ops) (.aDestroy v) = some st0) (hf : ((run (init p) ops).arrs w).size < fuel) :
+    ∃ st', execAll st0 ([.aCreate v 0, .aReserve v ((run (init p) ops).arrs w).cap] ++
+        (List.range ((run (init p) ops).arrs w).size).map (fun j => .aPush v (.elem w j))) = some st' ∧
+      LifeArray.copyCtor fuel (rep st0) v w = some (rep st', ()) := by
+  have ha := (ArrTr.aok_reach p ops v hv).alive
+  have hW := ArrTr.aok_reach p ops w hw
+  have hst0 : st0.arrs v = {} ∧ st0.arrs w = (run (init p) ops).arrs w := by
+    simp only [exec, Micro.valid, decide_eq_true hv, if_true, exec', ha, Bool.not_true, Bool.false_eq_true, if_false] at h0
+    cases hs : ((run (init p) ops).arrs v).store <;> simp only [hs, Option.some.injEq] at h0 <;> subst h0 <;>
+      simp [State.setArr, ArrTr.upd_same, ArrTr.upd_other _ _ _ _ hne, ArrTr.dtorRange_arrs]
+  have hW0 : ArrTr.AOk st0 w :=
+    ⟨hw, by rw [hst0.2]; exact hW.alive, by rw [hst0.2]; exact hW.size_le, by rw [hst0.2]; exact hW.none_zero⟩
+  have := ArrTr.tr_copyCtor hv hst0.1 hW0 hne fuel (by rw [hst0.2]; exact hf)
+  rw [hst0.2] at this
+  exact this
+
+/-- C04 `translated_append_range`: `a.append(&a[i], n)` with the range [i, i+n) inside the array, n > 0: the pointer is followed into
+    the new storage and then walks through the elements i .. i+n-1 while the array grows. -/
+theorem translated_append_range (p : Per) (ops : List Op) (v i n s fuel : Nat) (hv : v ≤ 1)
+    (hs : ((run (init p) ops).arrs v).store = some s) (hin : i + n ≤ ((run (init p) ops).arrs v).size) (hn : 0 < n)
+    (hf : ((run (init p) ops).arrs v).size + n < fuel) :
+    ∃ st', stepRes (run (init p) ops) (.aAppendPtr v i n) = .ok st' ∧
+      LifeArray.appendPtr fuel (rep (run (init p) ops)) v (.heap s i) n = some (rep st', ()) :=
+  ArrTr.tr_appendPtr (ArrTr.aok_reach p ops v hv) i n fuel s hs hin hn hf
+
+/-- C04 `translated_resize_own_element`: `a.resize(n, a[i])`, growing: n - size copies of the element i, read through the re-based pointer. -/
+theorem translated_resize_own_element (p : Per) (ops : List Op) (v n i s fuel : Nat) (hv : v ≤ 1)
+    (hs : ((run (init p) ops).arrs v).store = some s) (hi : i < ((run (init p) ops).arrs v).size)
+    (hn : ((run (init p) ops).arrs v).size ≤ n) (hf : ((run (init p) ops).arrs v).size + n < fuel) :
+    ∃ st', stepRes (run (init p) ops) (.aResizeRef v n i) = .ok st' ∧
+      LifeArray.resize fuel (rep (run (init p) ops)) v n (.heap s i) = some (rep st', ()) :=
+  ArrTr.tr_resize_own (ArrTr.aok_reach p ops v hv) n i fuel s hs hi hn hf
+
 /-- non-vacuity: a reachable state with a full array (size 3 = capacity 3): the translated `append(a[0])` reallocates, copies the
     three elements into the new block, destroys the old ones, releases the old block and constructs the copy of the re-based
     element - the same 10 events as the model (evaluated by the kernel) -/
@@ -129,17 +177,7 @@ example : (LifeArray.append 10 (rep (run (init per4) [.aAppend 0 5, .aAppend 0 6
     some ((step (run (init per4) [.aAppend 0 5, .aAppend 0 6, .aAppend 0 7]) (.aAppendRef 0 0)).log.length) ∧
     ((run (init per4) [.aAppend 0 5, .aAppend 0 6, .aAppend 0 7]).arrs 0).store = some 0 := by decide +kernel
 
-/-
-OPEN: translated by tools/gen_life.py into Nstd/Generated/LifeArray.lean, loops proved (Nstd/Life/LemmasArrTr.lean: `copyCtor_loop`,
-`assign_loop`, `appendArr_loop`, `appendPtr_loop`, `resize_loop2_heap` compute `copySlots` / `fillSlots` for every start and count), but
-the FUNCTION-level equality with the model operation is not proved yet:
-  * `Array(const Array&)` = `[aCreate, aReserve cap_w] ++ aPush (elem w j)`;  `operator=` = `.assign`;
-  * `append(const T*, n)` with a range of the array itself = `.aAppendPtr`;
-  * `resize(n, a[i])` growing with a reference to an own element = `.aResizeRef` (the shrinking case is `tr_resize_shrink`).
-The chain lemma is there since the second leg (`ArrTr.exec_copy_other`, `ArrTr.exec_copy_self`: `execAll` of `aPush v (elem w j)`, j = si..si+k-1,
-equals `copySlots`, for another array and for the array itself with the source bound re-established after every push) and closes
-`append(const Array&)` (`translated_append_array`, `translated_append_array_self`); the same composition for these four is not written yet.
-They remain tied by the correspondence run only.
--/
+/- No OPEN statement: every member function of Array.hpp that creates, destroys or moves elements is translated and proved equal to
+   the model (`a.append(&a[i], 0)` - an empty range - is the one argument shape outside `translated_append_range`; it constructs nothing). -/
 
 end Nstd.Life
